@@ -98,7 +98,7 @@ PROPS["C02"] = {
                     "credentials with the real keys, by a leak scan of cookie values and store entries (raw, base64- and hex-decoded views) "
                     "and by trying to open store entries with key material found in the store"],
     "trusted_base": ["Go's crypto/hmac, crypto/aes, crypto/cipher used by the driver to build the oracle tables"],
-    "level_text": "c02_credential_reads_pinned / c02_credential_reads_reviewed (every req.Cookie / Cookies() read and every encryption.Validate / SignedValue call in ALL non-test sources, regenerated on every run, is the reviewed list in which each read is validated in place, by its caller or by its callee, or uses cookie names only); c02_save_adopts_only_valid_ticket (a save - login completion or refresh - writes under the ticket the request presents only if that cookie validates, else under the freshly generated one), c02_accepted_has_valid_mac (for every presented string: accepted => field 3 decodes to the MAC of name++field1++field2), "
+    "level_text": "c02_mac_shape (how the cookie MAC is computed and checked, regenerated from pkg/encryption/utils.go on every run: keyed HMAC over name, value and timestamp in order, as received, constant-time comparison); c02_credential_reads_pinned / c02_credential_reads_reviewed (every req.Cookie / Cookies() read and every encryption.Validate / SignedValue call in ALL non-test sources, regenerated on every run, is the reviewed list in which each read is validated in place, by its caller or by its callee, or uses cookie names only); c02_save_adopts_only_valid_ticket (a save - login completion or refresh - writes under the ticket the request presents only if that cookie validates, else under the freshly generated one), c02_accepted_has_valid_mac (for every presented string: accepted => field 3 decodes to the MAC of name++field1++field2), "
                   "c02_accepted_alteration_is_issued, c02_mac_input_ambiguity (full characterisation of the unseparated-concatenation "
                   "ambiguity, observation O1), c02_cross_name, c02_parts_order / c02_parts_gap (split cookies), c02_ticket_reads_only_valid "
                   "and c02_ticket_session_from_store (store touched only for a validated ticket) are proved for all inputs of the Gallina "
@@ -382,7 +382,7 @@ PROPS["C17"] = {
                     "byte-faithful streaming of bodies and relay of the upstream response are httputil.ReverseProxy behaviour: exercised "
                     "(oracles), not modelled"],
     "trusted_base": ["independent best-match computation and faithfulness oracles in the driver; loopback HTTP servers"],
-    "level_text": "c17_route (for EVERY ordering the unstable sort may produce - any permutation satisfying the comparator - the first matching "
+    "level_text": "c17_generated_comparator (the comparator sortByPathLongest hands to sort.Slice, translated from the source on every run, equals the model's on every pair of upstreams) and c17_director_shape (the reverse proxy's director as regenerated); c17_route (for EVERY ordering the unstable sort may produce - any permutation satisfying the comparator - the first matching "
                   "route is a matching upstream of greatest key: longest matching rewrite rule, else longest matching plain path), "
                   "c17_comparator, c17_no_match, c17_plain_unique are proved on the Gallina model of sortByPathLongest and the route table; "
                   "c17_query_verbatim / c17_query_additions / c17_query_no_additions / c17_rewrite_refused_iff / "
